@@ -7,7 +7,7 @@ from vp.gen import layout
 from vp.ref import catalog
 from vp.ref import grammar as G
 
-PAYLOAD_KINDS = ("exact", "short", "long", "random", "empty", "mutated")
+PAYLOAD_KINDS = ("exact", "short", "long", "random", "empty", "mutated", "nested")
 
 
 @st.composite
@@ -19,6 +19,13 @@ def payload_for(draw, target, kind=None, max_payload=4000, big_counts=False):
         kind = "random"  # definition outside the grammar (C16's business)
     if kind == "empty":
         return kind, b""
+    if kind == "nested":
+        # the payload is itself a complete frame - of the same message type, or of another
+        from vp.ref import codec as _c
+
+        inner = draw(st.binary(max_size=12))
+        cid = target.clsid if draw(st.booleans()) else draw(st.sampled_from([b"\x05\x01", b"\x06\x01", b"\x01\x07"]))
+        return "random", _c.ubx_frame(cid[0:1], cid[1:2], inner)
     if kind == "random":
         n = draw(st.one_of(st.integers(0, 12), st.integers(0, 2 * G.min_size(target.defn) + 8)))
         return kind, draw(st.binary(min_size=n, max_size=n))
